@@ -142,7 +142,10 @@ def _content_of(token):
     if isinstance(token, ObjectToken):
         return {k: _content_of(v) for k, v in token.value.items()}
     if isinstance(token, FileToken):
-        with open(token.value) as f:
+        p = token.value
+        if os.path.isdir(p):
+            p = os.path.join(p, "data.txt")     # a directory output: its content is the file inside
+        with open(p) as f:
             return f.read()
     return token.value
 
@@ -195,6 +198,12 @@ class SimCommand(Command):
             with open(path, "w") as f:
                 f.write(base)
             value = path
+        elif self.out_kind == "dir":
+            path = os.path.join(job.output_directory, f"out-{safe}.d")
+            os.makedirs(path, exist_ok=True)
+            with open(os.path.join(path, "data.txt"), "w") as f:
+                f.write(base)
+            value = path
         elif self.out_kind == "list":
             value = []
             for i in range(self.width):
@@ -232,7 +241,7 @@ class SimOutputProcessor(CommandOutputProcessor):
     async def process(self, job, command_output, connector=None, recoverable=False):
         value = (await command_output).value
         tag = get_tag(job.inputs.values())
-        if self.out_kind == "file":
+        if self.out_kind in ("file", "dir"):
             return self._file(job, value, tag, recoverable)
         if self.out_kind == "list":
             return ListToken(tag=tag, value=[self._file(job, p, tag, recoverable) for p in value])
